@@ -437,7 +437,7 @@ theorem l2_soft_failure {s s' : Life2.St} {who : Life.Who} {u k i fee x y : Nat}
     throw = false ∧ ∃ act, s.acts u k i = some act ∧ s'.acts u k i = some { act with state := 2 } ∧
       s'.users = s.users ∧ s'.vaultLong = s.vaultLong ∧ s'.vaultShort = s.vaultShort ∧
       s'.recLong = s.recLong ∧ s'.recShort = s.recShort ∧ Life2.supply s' = Life2.supply s := by
-  obtain ⟨_, act, ha, _, _, hcase⟩ := exec_some h
+  obtain ⟨_, _, act, ha, _, _, hcase⟩ := exec_some h
   rcases hcase with ⟨_, ht, rfl⟩ | ⟨ho, _⟩
   · exact ⟨ht, act, ha, by simp [acts_setAct], rfl, rfl, rfl, rfl, rfl, rfl⟩
   · cases ho
@@ -448,8 +448,8 @@ theorem l2_exec_once {s s' : Life2.St} {who : Life.Who} {u k i fee x y : Nat} {t
     (h : Life2.exec s who u k i fee throw fail x y = some (s', o, paid)) :
     who = .keeper ∧ (∃ act, s.acts u k i = some act ∧ act.state = 0) ∧
     (∃ act', s'.acts u k i = some act' ∧ (act'.state = 1 ∨ act'.state = 2)) ∧
-    ∀ who' fee' throw' fail' x' y', Life2.exec s' who' u k i fee' throw' fail' x' y' = none := by
-  obtain ⟨hw, act, ha, hst, _, hcase⟩ := exec_some h
+    ∀ who' fee' throw' fail' x' y' hard', Life2.exec s' who' u k i fee' throw' fail' x' y' hard' = none := by
+  obtain ⟨_, hw, act, ha, hst, _, hcase⟩ := exec_some h
   have hafter : ∃ act', s'.acts u k i = some act' ∧ (act'.state = 1 ∨ act'.state = 2) := by
     rcases hcase with ⟨_, _, rfl⟩ | ⟨_, _, _, hcomp⟩
     · exact ⟨{ act with state := 2 }, by simp [acts_setAct], Or.inr rfl⟩
@@ -457,12 +457,14 @@ theorem l2_exec_once {s s' : Life2.St} {who : Life.Who} {u k i fee x y : Nat} {t
       exact ⟨act', by rw [h2]; simp [acts_setAct], Or.inl h1⟩
   refine ⟨hw, ⟨act, ha, hst⟩, hafter, ?_⟩
   obtain ⟨act', ha', hs'⟩ := hafter
-  intro who' fee' throw' fail' x' y'
+  intro who' fee' throw' fail' x' y' hard'
   unfold Life2.exec
-  by_cases hk : who' = .keeper
-  · have : act'.state ≠ 0 := by omega
-    simp [hk, ha', this]
-  · simp [hk]
+  by_cases hh : hard' = true
+  · simp [hh]
+  · by_cases hk : who' = .keeper
+    · have : act'.state ≠ 0 := by omega
+      simp [hh, hk, ha', this]
+    · simp [hh, hk]
 
 /-- (a) **Exactly once**, every history from an empty market: for every slot, the number of executions
 (completions + cancellations) never exceeds the number of creations, and closes + (1 if still open) equals
@@ -482,7 +484,7 @@ theorem l2_exactly_once_history (l sh : Nat) (now : Int) (ops : List Life2.Op) (
 theorem l2_exec_frame {s s' : Life2.St} {who : Life.Who} {u k i fee x y : Nat} {throw fail : Bool} {o : Life2.Outcome} {paid : Nat}
     (h : Life2.exec s who u k i fee throw fail x y = some (s', o, paid)) :
     s'.users = s.users ∧ ∀ a b c, ¬ (a = u ∧ b = k ∧ c = i) → s'.acts a b c = s.acts a b c := by
-  obtain ⟨_, act, _, _, _, hcase⟩ := exec_some h
+  obtain ⟨_, _, act, _, _, _, hcase⟩ := exec_some h
   rcases hcase with ⟨_, _, rfl⟩ | ⟨_, _, _, hcomp⟩
   · exact ⟨rfl, fun a b c hne => by simp [acts_setAct, hne]⟩
   · obtain ⟨act', _, h2, h3, _⟩ := complete_some hcomp
@@ -512,6 +514,19 @@ example : (Life2.run (Life2.init 10000 5000 100) l2demoR).2 =
 example : let s := (Life2.run (Life2.init 10000 5000 100) l2demoR).1
     (s.users 0).long = 8000 ∧ (s.users 0).mt = 0 ∧ (s.users 2).mt = 500 ∧ (s.users 2).long = 10000 ∧
     (s.users 1).long = 10333 ∧ (s.users 1).short = 5050 ∧ (s.users 1).mt = 0 := by decide
+
+/-- position orders (kind 4, market increase, long collateral): collateral joins the pool on success, is refunded to the
+owner after a soft failure, and a pool-maths hard rejection (`hard`) changes nothing. -/
+example : (Life2.run (Life2.init 10000 5000 100)
+    [.create 1 4 0 700 300 false 400000 1, .create 1 4 1 50 9 false 400000 2, .price 0,
+     .exec .keeper 1 4 0 5 true false 0 0 true, .exec .keeper 1 4 0 5 true false 0 0, .exec .keeper 1 4 1 5 false true 0 0,
+     .close .keeper 1 4 0, .close (.user 2) 1 4 1, .close .keeper 1 4 1]).2 =
+    [.created 1 4 0, .created 1 4 1, .none, .none, .executed 1 4 0 .completed, .executed 1 4 1 .cancelled,
+     .closed 1 4 0, .none, .closed 1 4 1] := by decide
+example : let s := (Life2.run (Life2.init 10000 5000 100)
+    [.create 1 4 0 700 300 false 400000 1, .create 1 4 1 50 9 false 400000 2, .price 0, .exec .keeper 1 4 0 5 true false 0 0,
+     .exec .keeper 1 4 1 5 false true 0 0, .close .keeper 1 4 0, .close .keeper 1 4 1]).1
+    (s.users 1).long = 9300 ∧ (s.users 2).long = 10000 ∧ s.vaultLong = 700 ∧ s.recLong = 700 := by decide
 
 end Life2
 
